@@ -506,6 +506,8 @@ def run(ctx):
     _run_rules(ctx)
     from .. import boundaries
     boundaries.check(ctx, 'C12.RB', 'C12')
+    from . import C03
+    C03.r12_pad_length_octet(ctx, 'C12.R9')
     boundaries.check_inits(ctx, 'C12.RI', 'C12')
     boundaries.check_codes(ctx, 'C12.RE', 'C12')
     boundaries.check_writes(ctx, 'C12.RW', 'C12')
